@@ -24,50 +24,83 @@ def read_levels(lo, hi, n, finite_bounds):
     return lo.cdf(pts), hi.cdf(pts)
 
 
-def large_n_part(rep, rng, tier, ED, stats):
-    """dkw / ks beyond the reach of the exact rational evaluation: n in the hundreds and thousands"""
-    import ks_oracle
+BIG_NS = [6000, 8000, 12000, 20000]
+BIG_KS_CONFS = [0.3, 0.5, 0.9, 0.95]
+
+
+def large_n_plan(rng, brng, tier):
+    """(n, method, confidence, generator for the sample order / bounds) of the large-n stratum.
+
+    First the stratum as it was (n up to 3000 in the quick tier, confidences 0.5, 0.9 and one of 0.99 / 0.999 / random).  Then,
+    in EVERY tier, sample sizes in the thousands and tens of thousands -- 5000, one (quick) or all (thorough) of 6000, 8000,
+    12000, 20000, and log-uniform random n in 3001..20000 -- at small as well as conventional confidences (0.3, 0.5, 0.9, 0.95 and
+    a random one for ks [quick: 0.3, 0.95 and a random one at the random n]; 0.5 and/or 0.95 for dkw, whose eps is a closed form): an approximation of the Kolmogorov-Smirnov quantile
+    that is tuned to the upper tail is 100 x further off at confidence 0.3 than at 0.95.  The oracle costs 0.1-0.9 s per case
+    there (measured), so the quick tier takes one n of the list per run, chosen by the seed."""
     ns = [101, 150, 1000, 1001, 3000] if tier == "quick" else [101, 150, 400, 1000, 1001, 2000, 3000, 5000, 20000]
     for n in ns:
         for method in ("dkw", "ks"):
             for conf in [0.5, 0.9, rng.choice([0.99, 0.999, round(0.05 + 0.9 * rng.random(), 3)])]:
-                ys = [float(i) for i in range(1, n + 1)]
-                rng.shuffle(ys)
-                finite = rng.random() < 0.5
-                a, b = (0.0, float(n + 1)) if finite else (-INF, INF)
-                inp = dict(n=n, confidence=conf, method=method, a=a, b=b)
-                rep.count("large_n:method=" + method)
-                try:
-                    with warnings.catch_warnings():
-                        warnings.simplefilter("ignore")
-                        lo, pt, hi = ED.confidence_bands(ys, conf, a=a, b=b, method=method, n_jobs=1)
-                except Exception as e:  # noqa: BLE001
-                    rep.violate(what="confidence_bands raised on a valid input", error=repr(e), input=inp, call="EmpiricalDistribution.confidence_bands")
-                    continue
-                L, U = read_levels(lo, hi, n, finite)
-                idx = np.arange(1, n + 1)
-                alpha, beta = np.asarray(L[1:], dtype=float), np.asarray(U[:-1], dtype=float)   # L_i at Y_(i), U_{i-1} just below it
-                # eps from the unclipped entries of either side
-                cand = [float(np.max(idx / n - alpha)), float(np.max(beta - (idx - 1) / n))]
-                eps = max(cand)
-                want_a, want_b = np.clip(idx / n - eps, 0, 1), np.clip((idx - 1) / n + eps, 0, 1)
-                rep.case(("large_n", method, n, conf, a), sample=dict(inp, eps=eps))
-                if not (np.all(np.abs(alpha - want_a) <= 1e-12) and np.all(np.abs(beta - want_b) <= 1e-12)):
-                    rep.violate(what="dkw/ks band levels are not i/n -+ eps clipped to [0,1] for a single eps", input=inp, observed=dict(eps_lower=cand[0], eps_upper=cand[1]),
-                                call="EmpiricalDistribution.confidence_bands")
-                    continue
-                cov = ks_oracle.ks_cdf(n, eps)
-                ref = float(stats.kstwo(n).cdf(eps))
-                if abs(cov - ref) > 1e-6:
-                    rep.skip("large_n_oracles_disagree(matrix algorithm vs scipy.kstwo.cdf)>1e-6")
-                    continue
-                tol = 1e-12 if n <= 100 else 1e-5
-                ok = (cov >= conf - 1e-9) if method == "dkw" else (abs(cov - conf) <= tol + 1e-7)
-                if not ok:
-                    rep.violate(what="simultaneous coverage of the band, P[D_n <= eps] for the eps read off the returned levels (exact Kolmogorov-"
-                                     "Smirnov distribution by the Durbin matrix algorithm), is not the nominal one",
-                                input=inp, expected=(f">= {conf}" if method == "dkw" else f"= {conf} +- {tol}"), observed=cov, eps=eps,
-                                call="EmpiricalDistribution.confidence_bands")
+                yield n, method, conf, rng, "as_before"
+    big = [5000] + ([brng.choice(BIG_NS)] if tier == "quick" else list(BIG_NS))
+    rnd = [int(round(3001 * (20000 / 3001) ** brng.random())) for _ in range(1 if tier == "quick" else 4)]
+    for n in big + rnd:
+        confs = BIG_KS_CONFS if (n in big or tier != "quick") else [0.3, 0.95]
+        for conf in confs + [round(0.05 + 0.9 * brng.random(), 3)]:
+            yield n, "ks", conf, brng, "thousands"
+        for conf in ((0.5, 0.95) if tier != "quick" else (brng.choice([0.5, 0.95]),)):
+            yield n, "dkw", conf, brng, "thousands"
+    # small confidences below the thousands as well (cheap there: the matrix of the oracle has order ~ 2 n eps)
+    for n in ([150, 1000, 3000] if tier == "quick" else [101, 150, 400, 1000, 2000, 3000]):
+        for conf in (0.3, round(0.02 + 0.4 * brng.random(), 3)):
+            yield n, "ks", conf, brng, "small_confidence"
+
+
+def large_n_part(rep, rng, tier, ED, stats, brng):
+    """dkw / ks beyond the reach of the exact rational evaluation: n in the hundreds, thousands and tens of thousands"""
+    import ks_oracle
+    for n, method, conf, r, stratum in large_n_plan(rng, brng, tier):
+        ys = [float(i) for i in range(1, n + 1)]
+        r.shuffle(ys)
+        finite = r.random() < 0.5
+        a, b = (0.0, float(n + 1)) if finite else (-INF, INF)
+        inp = dict(n=n, confidence=conf, method=method, a=a, b=b)
+        rep.count("large_n:method=" + method)
+        rep.count("large_n:n=%s" % ("101-3000" if n <= 3000 else "3001-4999" if n < 5000 else "5000" if n == 5000 else "5001-20000"))
+        rep.count("large_n:confidence=%s" % ("<0.5" if conf < 0.5 else "0.5-0.9" if conf <= 0.9 else ">0.9"))
+        rep.count("large_n:stratum=" + stratum)
+        try:
+            with warnings.catch_warnings():
+                warnings.simplefilter("ignore")
+                lo, pt, hi = ED.confidence_bands(ys, conf, a=a, b=b, method=method, n_jobs=1)
+        except Exception as e:  # noqa: BLE001
+            rep.violate(what="confidence_bands raised on a valid input", error=repr(e), input=inp, call="EmpiricalDistribution.confidence_bands")
+            continue
+        L, U = read_levels(lo, hi, n, finite)
+        idx = np.arange(1, n + 1)
+        alpha, beta = np.asarray(L[1:], dtype=float), np.asarray(U[:-1], dtype=float)   # L_i at Y_(i), U_{i-1} just below it
+        # eps from the unclipped entries of either side
+        cand = [float(np.max(idx / n - alpha)), float(np.max(beta - (idx - 1) / n))]
+        eps = max(cand)
+        want_a, want_b = np.clip(idx / n - eps, 0, 1), np.clip((idx - 1) / n + eps, 0, 1)
+        rep.case(("large_n", method, n, conf, a), sample=dict(inp, eps=eps))
+        if not (np.all(np.abs(alpha - want_a) <= 1e-12) and np.all(np.abs(beta - want_b) <= 1e-12)):
+            rep.violate(what="dkw/ks band levels are not i/n -+ eps clipped to [0,1] for a single eps", input=inp, observed=dict(eps_lower=cand[0], eps_upper=cand[1]),
+                        call="EmpiricalDistribution.confidence_bands")
+            continue
+        cov = ks_oracle.ks_cdf(n, eps)
+        ref = float(stats.kstwo(n).cdf(eps))
+        if abs(cov - ref) > 1e-6:
+            rep.skip("large_n_oracles_disagree(matrix algorithm vs scipy.kstwo.cdf)>1e-6")
+            continue
+        tol = 1e-12 if n <= 100 else 1e-5
+        ok = (cov >= conf - 1e-9) if method == "dkw" else (abs(cov - conf) <= tol + 1e-7)
+        if not ok:
+            rep.violate(what="simultaneous coverage of the band, P[D_n <= eps] for the eps read off the returned levels (exact Kolmogorov-"
+                             "Smirnov distribution by the Durbin matrix algorithm), is not the nominal one",
+                        input=inp, expected=(f">= {conf}" if method == "dkw" else f"= {conf} +- {tol}"), observed=cov, eps=eps,
+                        call=f"lo, _, hi = EmpiricalDistribution.confidence_bands([float(i) for i in range(1, {n} + 1)], {conf!r}, a={a!r}, "
+                             f"b={b!r}, method={method!r}, n_jobs=1)  # the sample in any order; levels lo.cdf(i), hi.cdf(i), i = 1..{n}")
 
 
 def run(seed, tier, replay=None):
@@ -211,14 +244,15 @@ def run(seed, tier, replay=None):
                              "code's level tables) is not the nominal one",
                         input=inp, expected=exp, observed=float(cov), lower_levels=alpha, upper_levels=beta,
                         call="EmpiricalDistribution.confidence_bands")
-    large_n_part(rep, rng, tier, ED, stats)
+    large_n_part(rep, rng, tier, ED, stats, C.rng_for("C01.large_n.thousands", seed))
     return rep.result(
         rule="(method, n, confidence, finite/infinite bounds): dkw/ks for n up to 40 (quick) / 80 (thorough) at confidences incl. 0, 1e-12, "
              "1-1e-12, 1; ld_* for small n at a few confidences (each call simulates 100 000 trials). The level tables are read off the "
              "returned distributions' public cdf; the coverage is evaluated exactly in Q by the driver twice (band.rect: dynamic programme over "
              "the cells between levels, proved to be the rectangle probability; band.steck: Steck's determinant, cited) and the two "
              "rationals must be equal. "
-             "Large n (101..3000 quick, ..20000 thorough), dkw/ks: the levels must be clip(i/n -+ eps) (then, by theorem "
+             "Large n (101..3000, 5000, one of 6000/8000/12000/20000 by seed and a random n in 3001..20000 quick; all of them "
+             "thorough; ks at confidences 0.3, 0.5, 0.9, 0.95 + random there), dkw/ks: the levels must be clip(i/n -+ eps) (then, by theorem "
              "C01.dkw_ks_box_iff_sup, coverage = P[D_n <= eps]), and P[D_n <= eps] is evaluated by an independent Durbin/"
              "Marsaglia-Tsang-Wang matrix algorithm (cross-checked against scipy.stats.kstwo.cdf). ld history pairs: a call preceded "
              "by another ld call (other method or confidence) with a generator in the same state.",
